@@ -98,7 +98,8 @@ def run(ctx):
             if channel in ('files', 'list'):
                 exts = ['.fasta', '.fa.gz', '.fna', '.fa', '', '.txt', '.fa.fasta', '.fna.fasta.gz', '.fasta.fa']       # incl. stacked extensions: only ONE is stripped
                 names = [f'genome{i}{exts[(i + si) % len(exts)]}' for i in range(n)]
-                paths = [W.write_fasta(os.path.join(d, 'in', nm), contigs_for(s), gz=nm.endswith('.gz'), mixed=(j % 2 == 1), lower=(j % 5 == 4))
+                paths = [W.write_fasta(os.path.join(d, 'in', nm), contigs_for(s), gz=nm.endswith('.gz'), mixed=(j % 2 == 1), lower=(j % 5 == 4),
+                                       members=[2, 3, 2, 1][(si // 2) % 4], width=[60, 11, 1000][(j + si) % 3], eol=['\n', '\r\n'][(j + si // 2) % 2], final_eol=bool((j + si) % 4))
                          for j, (nm, s) in enumerate(zip(names, subsets))]          # upper-case, soft-masked (mixed) and lower-case files side by side
                 if si % 3 == 1:
                     # the first input is given through a symbolic link with another base name: the label comes from the name given
